@@ -16,7 +16,7 @@ cleanup() { git -C /repo worktree remove --force "$WT" 2>/dev/null; rm -rf /tmp/
 trap cleanup EXIT
 if ! git -C "$WT" apply "$S/patch.diff"; then echo "SEED $1: patch does not apply to current /repo HEAD"; exit 3; fi
 export GOPROXY=off GOSUMDB=off GOTOOLCHAIN=local
-(cd "$WT" && go build -mod=mod ./... ) || { echo "SEED $1: does not build"; exit 3; }
+(cd "$WT" && go build -mod=mod $(go list -mod=mod ./... | grep -v /demo/) ) || { echo "SEED $1: does not build"; exit 3; }
 if [ "${SEED_TESTS:-0}" = 1 ]; then
   PKGS=$(cd "$WT" && git diff --name-only | xargs -n1 dirname | sort -u | sed 's#^#./#')
   echo "touched: $PKGS"
